@@ -83,7 +83,12 @@ type engine struct {
 
 func newEngine(c *harness.Check) *engine {
 	e := &engine{c: c, ch: make(chan base, 256), viols: map[string]*vrec{}, samples: map[int64]any{}, seen: map[uint64]struct{}{}, failed: map[int64]bool{}}
-	e.deadline = time.Now().Add(harness.Pick(c, 170*time.Second, 150*time.Minute))
+	budget := harness.Pick(c, 10*time.Minute, 150*time.Minute)
+	if d, err := time.ParseDuration(os.Getenv("C07_BUDGET")); err == nil && d > 0 {
+		budget = d // e.g. on a machine that is busy with other work
+	}
+	e.deadline = time.Now().Add(budget)
+	c.Extra["time_budget"] = budget.String()
 	n := harness.Workers()
 	for i := 0; i < n; i++ {
 		e.wg.Add(1)
@@ -687,7 +692,7 @@ func (e *engine) enumerate() {
 	{
 		p := e.part("credentials",
 			"protocols {socks5,http} x username length x password length x content {ascii, all byte values, password starts with the username} x presented credentials {right, wrong password (first/last byte), unknown user (first/last byte), another user's password, second user right, second user with first user's password, password = username, password prefix/extension, username prefix/extension, swapped}; configured users: (U,P), a second user, a user named U+'z', a user named U minus its last byte",
-			harness.Pick(c, "length pairs: (1..255 x {1,2,127,128,254,255}) and ({1,2,127,128,254,255} x 1..255); every single cut and read sizes 1,2,3,7 on boundary x boundary", "all 255 x 255 length pairs; every single cut for right / wrong password / unknown user on all pairs (ascii), pairs of cuts on boundary x boundary"))
+			harness.Pick(c, "length pairs: (1..255 x {1,2,127,128,254,255}) and ({1,2,127,128,254,255} x 1..255), all presented-credential cases unfragmented; every single cut and read sizes 1,2,3,7 on boundary x boundary (all cases) and, for socks5/ascii/right+wrong password, on all these pairs", "all 255 x 255 length pairs, all cases unfragmented; every single cut for right / wrong password / unknown user (ascii) on all pairs for socks5 and on the boundary cross for http; every pair of cuts for those three cases on boundary x boundary"))
 		for _, proto := range []string{"socks5", "http"} {
 			for _, pat := range []string{"ascii", "allbytes", "shared-prefix"} {
 				for ul := 1; ul <= 255; ul++ {
@@ -704,16 +709,17 @@ func (e *engine) enumerate() {
 							sp.Users = users
 							sp.CU, sp.CP, sp.CredCase = cc.u, cc.p, cc.name
 							sp.Target = Target{Kind: "domain", Domain: []byte("example.org"), Port: 8443}
+							three := cc.name == "right" || cc.name == "wrong-password-last-byte" || cc.name == "unknown-user-last-byte"
 							plan := 0
 							switch {
-							case bu && bp && th:
-								plan = 3
 							case bu && bp:
 								plan = 2
-							case th && pat == "ascii" && (cc.name == "right" || cc.name == "wrong-password-last-byte" || cc.name == "unknown-user-last-byte"):
+								if th && three {
+									plan = 3
+								}
+							case th && pat == "ascii" && three && (proto == "socks5" || bu || bp):
 								plan = 2
-							}
-							if plan == 3 && !(cc.name == "right" || cc.name == "wrong-password-last-byte" || cc.name == "unknown-user-last-byte") {
+							case !th && pat == "ascii" && proto == "socks5" && three && cc.name != "unknown-user-last-byte":
 								plan = 2
 							}
 							e.emit(p, sp, plan, 2)
